@@ -300,7 +300,8 @@ class BitSet(BaseBitSet):
         """
 
         # If the source is a list, tuple, or set, we can guess the size
-        if not size and isinstance(source, (list, tuple, set, frozenset)):
+        if (not size and source
+            and isinstance(source, (list, tuple, set, frozenset))):
             size = max(source)
         bytecount = bytes_for_bits(size)
         self.bits = array("B", (0 for _ in xrange(bytecount)))
@@ -388,10 +389,11 @@ class BitSet(BaseBitSet):
 
     def discard(self, i):
         bucket = i >> 3
-        self.bits[bucket] &= ~(1 << (i & 7))
+        if bucket < len(self.bits):
+            self.bits[bucket] &= ~(1 << (i & 7))
 
     def _resize_to_other(self, other):
-        if isinstance(other, (list, tuple, set, frozenset)):
+        if other and isinstance(other, (list, tuple, set, frozenset)):
             maxbit = max(other)
             if maxbit // 8 > len(self.bits):
                 self._resize(maxbit)
@@ -416,6 +418,10 @@ class BitSet(BaseBitSet):
             discard(n)
 
     def invert_update(self, size):
+        if bytes_for_bits(size) > len(self.bits):
+            # The complement includes every number below "size", also those
+            # beyond the bytes allocated so far
+            self._resize(size)
         bits = self.bits
         for i in xrange(len(bits)):
             bits[i] = ~bits[i] & 0xFF
@@ -503,7 +509,7 @@ class SortedIntSet(DocIdSet):
     def discard(self, i):
         data = self.data
         pos = bisect_left(data, i)
-        if data[pos] == i:
+        if pos < len(data) and data[pos] == i:
             data.pop(pos)
 
     def clear(self):
@@ -566,7 +572,7 @@ class ReverseIdSet(DocIdSet):
         return self.limit - len(self.idset)
 
     def __contains__(self, i):
-        return i not in self.idset
+        return 0 <= i < self.limit and i not in self.idset
 
     def __iter__(self):
         ids = iter(self.idset)
@@ -597,7 +603,8 @@ class ReverseIdSet(DocIdSet):
     def last(self):
         idset = self.idset
         maxid = self.limit - 1
-        if idset.last() < maxid - 1:
+        idlast = idset.last()
+        if idlast is None or idlast < maxid - 1:
             return maxid
 
         for i in xrange(maxid, -1, -1):
@@ -681,7 +688,8 @@ class MultiIdSet(DocIdSet):
 
     def _document_set(self, n):
         offsets = self.offsets
-        return max(bisect_left(offsets, n), len(self.offsets) - 1)
+        # The last sub-set whose offset is not greater than n
+        return max(bisect_right(offsets, n) - 1, 0)
 
     def _set_and_docnum(self, n):
         setnum = self._document_set(n)
